@@ -71,4 +71,17 @@ def check_C09(tier, seed):
 
 MODEL_C09 = True
 
-CHECKS = {"C09": check_C09, "C04": check_C04, "C01": check_C01, "C02": check_C02, "C03": check_C03, "C08": check_C08}
+def check_C12(tier, seed):
+    t0 = time.time()
+    z = sizes(tier)
+    for p in ("debug", "release"): build_harness(p)
+    proof = prove("C12", ["Soa.Props.C12"])
+    scs = gen.cap_scenarios(gen.CAP_SHAPES, z["nrand"], z["nops"], seed)
+    suites = [run_suite("C12", scs, ["debug", "release"], [mon_c12], "capacity", compare_model=MODEL_C12)]
+    def widen():
+        yield run_suite("C12", gen.cap_scenarios(gen.ALL_SHAPES, 3000, 60, seed + 1), ["debug", "release"], [mon_c12], "widen", compare_model=False)
+    return finish("C12", tier, seed, t0, "proof", proof, suites, [mon_c12], widen=widen)
+
+MODEL_C12 = True
+
+CHECKS = {"C12": check_C12, "C09": check_C09, "C04": check_C04, "C01": check_C01, "C02": check_C02, "C03": check_C03, "C08": check_C08}
